@@ -66,11 +66,12 @@ def main():
     t0 = time.time()
     mod = importlib.import_module('obligations.' + prop)
     META = mod.META
-    obs = [o for o in mod.OBLIGATIONS if tier in o.tiers]
+    ALL = list(mod.OBLIGATIONS) + (list(mod._shared()) if hasattr(mod, '_shared') else [])   # _shared(): late import (module cycles)
+    obs = [o for o in ALL if tier in o.tiers]
     replay_file = None
     if args.replay:
         replay_file = json.load(open(args.replay))
-        obs = [o for o in mod.OBLIGATIONS if o.name == replay_file['obligation']]
+        obs = [o for o in ALL if o.name == replay_file['obligation']]
         if not obs:
             print('replay: obligation %s no longer exists' % replay_file['obligation'])
             return 2
